@@ -465,10 +465,13 @@ def run_orphan_case(case):
                 gone = lambda st: st.deleted or st.detached or st.was_deleted or st.obj() in sess.deleted  # noqa: E731
                 if not gone(kst) and not gone(pst) and ks[op["k"]] not in ps[op["p"]].kids:
                     oldp = ks[op["k"]].parent
+                    was_pending = kst.pending
                     ps[op["p"]].kids.append(ks[op["k"]])
                     removed_from.setdefault(op["k"], set()).discard(op["p"])
                     if oldp is not None and oldp is not ps[op["p"]]:
                         removed_from[op["k"]].add(ps.index(oldp))  # the backref took it out of the old list
+                    if ks[op["k"]] not in sess and was_pending and oldp is not None and oldp is not ps[op["p"]]:
+                        return ("pending-child-moved-between-parents-expunged", "pending child %d moved from parent %d to parent %d (both delete-orphan): the backref's removal from the old collection expunges it as an orphan after the save-update cascade of the append has already run; it is in the new collection but not in the session, and flush skips it" % (op["k"], ps.index(oldp), op["p"]))
                     if ks[op["k"]] not in sess or ss[op["k"]] not in sess:
                         return ("attach-reach", "child %d appended to a parent in the session: child / sub-child in session = %s / %s (save-update cascade)" % (op["k"], ks[op["k"]] in sess, ss[op["k"]] in sess))
             elif k == "unplain":
